@@ -250,6 +250,20 @@ IdBSsector == LET tb == [k \in 0..8 |-> GBS(k).m] IN
 IdBSswap == GBS(2).m[2][4] # R0 /\ GBS(2).m[2][2] = R0 /\ GBS(2).m[4][4] = R0   \* |0,1> <-> i|1,0>
 IdHOM    == GBS(1).m[5][5] = R0
 IdBSsym  == \A k \in 0..8 : RMul(GBS(k).m[4][4], GBS(k).m[4][4]) = RMul(R2, GBS(k).m[7][7])
+\* Mach-Zehnder: 50/50 splitter, phase phi = k*pi/4 on the first arm, 50/50 splitter. One photon entering in
+\* the first mode leaves in the second with probability cos^2(phi/2) and in the first with sin^2(phi/2)
+\* (two 50/50 splitters with phi = 0 make BS(pi/2), which swaps the modes).  cos^2(phi/2) = (sqrt2 + sqrt2 cos phi) / (2 sqrt2).
+WMul(u, v) == <<u[1]*v[1] + 2*u[2]*v[2], u[1]*v[2] + u[2]*v[1]>>
+MZI(k) == MatMul(GBS(1).m, MatMul(MatKron(GPS(k).m, 3, MatId(3), 3), GBS(1).m, 9), 9)
+IdMZI == \A k \in 0..7 :
+           LET m  == MZI(k)
+               na == RNorm2(m[4][4])   nb == RNorm2(m[2][4])        \* |1,0> -> |1,0>,  |1,0> -> |0,1>
+               c  == C8w(k)
+           IN /\ WMul(nb, <<-c[1], 1 - c[2]>>) = WMul(na, <<c[1], 1 + c[2]>>)
+              /\ WPos(WAdd(na, nb))
+              /\ \A r \in 1..9 : r \notin {2, 4} => m[r][4] = R0
+\* two photons, one per input, balanced interferometer with phi = pi: back to Hong-Ou-Mandel bunching never a coincidence
+IdMZIHom == \A k \in {0, 4} : MZI(k)[5][5] # R0 /\ MZI(k)[3][5] = R0 /\ MZI(k)[7][5] = R0
 \* channels and POVMs are complete
 KrausIds == {"bitflip", "dephase", "ampdamp", "phaseflipY", "unitS", "unitH", "deph3", "loss3",
              "flipXdamp", "corrflip", "unitCX", "flipXdeph3", "loss3Xdamp", "corrflip6", "ctrlshift6"}
@@ -264,7 +278,7 @@ IdentityTable ==
    IdU3RY |-> IdU3RY, IdU3H |-> IdU3H, IdComm |-> IdComm, IdNum |-> IdNum, IdDag |-> IdDag,
    IdCXCX |-> IdCXCX, IdCSCS |-> IdCSCS, IdCZ |-> IdCZ, IdSWAP |-> IdSWAP, IdCXasym |-> IdCXasym,
    IdBSsector |-> IdBSsector, IdBSswap |-> IdBSswap, IdHOM |-> IdHOM, IdBSsym |-> IdBSsym,
-   IdKraus |-> IdKraus, IdPovm |-> IdPovm]
+   IdMZI |-> IdMZI, IdMZIHom |-> IdMZIHom, IdKraus |-> IdKraus, IdPovm |-> IdPovm]
 FailedIdentities == {n \in DOMAIN IdentityTable : ~IdentityTable[n]}
 GateIdentities == FailedIdentities = {}
 =============================================================================
